@@ -1359,4 +1359,197 @@ example :
   intro base ops f
   exact ⟨by decide +kernel, (spec_forwarded_through_mk base 0 ops).2.1.trans (by decide +kernel), (spec_forwarded_through_mk base 0 ops).1⟩
 
+/-! ## a constructor does not destroy its operand (review t5, defect P7)
+
+`stepM` / `runMulti` (WrapHist.lean) keep EVERY object built so far callable.  The clause "wrapping twice equals wrapping once
+- directly or through a chain" is about the object the constructor returns; the objects it was given must keep answering as
+before.  The pinned code cut same-class wrappers out of its operand's inner objects in place (`stackhist3` lines and law 7
+report it); the model is of the repaired constructor, which rebuilds the chain.  What the model is compared with the code on is
+therefore exactly the statements below. -/
+
+/-- the world with further objects appended (what any number of constructor applications do to it) -/
+def plus (w : MWorld) (extra : List MObj) : MWorld := { w with objs := w.objs ++ extra }
+
+/-- a construction step adds ONE object at the end and changes nothing else: no existing object, no cache dict, no execution -/
+theorem construction_keeps_objects (s : Sig) (body : PDict → Res Val) (unh : Call → Bool) (w w' : MWorld)
+    (cls : Cls) (p : PDict) (src : Nat) (out : Option (Res Val × Nat))
+    (h : stepM s body unh w (.wrap cls p src) = some (w', out)) :
+    out = none ∧ ∃ o, w.objs[src]? = some o ∧ w' = plus w [mkObj cls p o] := by
+  simp only [stepM] at h
+  cases ho : w.objs[src]? with
+  | none => simp [ho] at h
+  | some o =>
+    simp only [ho, Option.some.injEq, Prod.mk.injEq] at h
+    exact ⟨h.2.symm, o, rfl, h.1.symm⟩
+
+/-- a call of an EXISTING object in a world with further objects: the same reply, the same executions, the same effect on the
+cache dicts - the further objects are not touched and do not matter -/
+theorem call_ignores_later_objects (s : Sig) (body : PDict → Res Val) (unh : Call → Bool) (w : MWorld)
+    (extra : List MObj) (j : Nat) (c : Call) (hj : j < w.objs.length) :
+    stepM s body unh (plus w extra) (.call j c) =
+      (stepM s body unh w (.call j c)).map fun r => (plus r.1 extra, r.2) := by
+  simp only [stepM, plus, List.getElem?_append_left hj]
+  cases ho : w.objs[j]? with
+  | none => rfl
+  | some o =>
+    simp only
+    split
+    · simp only [Option.map_some, List.set_append_left _ _ hj]
+    · simp only [Option.map_some]
+
+theorem call_keeps_length (s : Sig) (body : PDict → Res Val) (unh : Call → Bool) (w w1 : MWorld) (j : Nat) (c : Call)
+    (out : Option (Res Val × Nat)) (h : stepM s body unh w (.call j c) = some (w1, out)) :
+    w1.objs.length = w.objs.length := by
+  simp only [stepM] at h
+  cases ho : w.objs[j]? with
+  | none => simp [ho] at h
+  | some o =>
+    simp only [ho] at h
+    split at h
+    · simp only [Option.some.injEq, Prod.mk.injEq] at h
+      rw [← h.1]; simp
+    · simp only [Option.some.injEq, Prod.mk.injEq] at h
+      rw [← h.1]
+
+/-- **objects built earlier answer as before**: any history of calls of the objects that exist in `w` gives the same replies and
+the same numbers of executions of `f` whether or not further objects (`extra`: the results of ANY constructor applications) have
+been built in between -/
+theorem older_objects_ignore_later_objects (s : Sig) (body : PDict → Res Val) (unh : Call → Bool) (extra : List MObj) :
+    ∀ (calls : List (Nat × Call)) (w : MWorld), (∀ x ∈ calls, x.1 < w.objs.length) →
+      runMulti s body unh (plus w extra) (calls.map fun x => .call x.1 x.2) =
+        runMulti s body unh w (calls.map fun x => .call x.1 x.2)
+  | [], _, _ => rfl
+  | (j, c) :: rest, w, h => by
+    have hj : j < w.objs.length := h (j, c) (by simp)
+    simp only [List.map_cons, runMulti, call_ignores_later_objects s body unh w extra j c hj]
+    cases hs : stepM s body unh w (.call j c) with
+    | none => rfl
+    | some r =>
+      obtain ⟨w1, out⟩ := r
+      have hl := call_keeps_length s body unh w w1 j c out hs
+      simp only [Option.map_some]
+      rw [older_objects_ignore_later_objects s body unh extra rest w1
+        (fun x hx => by rw [hl]; exact h x (by simp [hx]))]
+
+/-- ... in particular after one constructor application on any of them (the shape of the defect: `y = W(x)`, then `x` again) -/
+theorem older_objects_answer_as_before (s : Sig) (body : PDict → Res Val) (unh : Call → Bool) (w w' : MWorld)
+    (cls : Cls) (p : PDict) (src : Nat) (out : Option (Res Val × Nat))
+    (h : stepM s body unh w (.wrap cls p src) = some (w', out))
+    (calls : List (Nat × Call)) (hc : ∀ x ∈ calls, x.1 < w.objs.length) :
+    runMulti s body unh w (.wrap cls p src :: calls.map fun x => .call x.1 x.2) =
+      runMulti s body unh w (calls.map fun x => .call x.1 x.2) := by
+  obtain ⟨hout, o, _, hw⟩ := construction_keeps_objects s body unh w w' cls p src out h
+  subst hout
+  simp only [runMulti, h]
+  rw [hw, older_objects_ignore_later_objects s body unh _ calls w hc]
+  cases runMulti s body unh w (calls.map fun x => MStep.call x.1 x.2) <;> rfl
+
+theorem noCache_of_hasCacheLayer {ch : List (Cls × PDict)} (h : hasCacheLayer ch = false) : noCache ch := by
+  intro x hx hc
+  have : hasCacheLayer ch = true := by
+    simp only [hasCacheLayer, List.any_eq_true]
+    exact ⟨x, hx, by simp [hc]⟩
+  rw [h] at this; cases this
+
+/-- an object WITHOUT a cache layer is transparent in every world - whatever was built before or after it, on top of it or not,
+whatever the cache dicts hold: a valid call returns what `f` returns and executes it exactly once (clause 1 for older objects) -/
+theorem uncached_object_transparent_in_any_world (s : Sig) (body : PDict → Res Val) (unh : Call → Bool) (w : MWorld)
+    (j : Nat) (o : MObj) (c : Call) (v : Val) (ho : w.objs[j]? = some o) (hn : hasCacheLayer o.chain = false)
+    (hv : ValidCall s body c v) :
+    stepM s body unh w (.call j c) =
+      some ({ w with evals := w.evals ++ [reach s o.chain c] }, some (.ok v, w.evals.length + 1)) := by
+  simp only [stepM, ho, hn, Bool.false_eq_true, if_false,
+    evalH_below s body unh o.chain _ c v (noCache_of_hasCacheLayer hn) hv, List.length_append, List.length_cons, List.length_nil]
+
+/-- non-vacuity and the reviewer's two witnesses on the model: `x = kwargs_support(pd2np(try_zero(f)))`, a raising call gives the
+fallback `0` before and after `try_none(x)`; `x = try_none(kwargs_support(cache(f)))` called twice, `cache_func(x)`, called twice
+again: one execution in all -/
+example :
+    let s : Sig := { params := ["a"], defaults := [], varargs := none, varkw := none }
+    let body : PDict → Res Val := fun b => if b.lookup "a" = some (.cell (.str "!")) then .error Err.type else .ok (.dict b)
+    let tv (v : Val) : PDict := [("repeat", .cell (.int 0)), ("return_value", .cell (.bool true)), ("value", v)]
+    let bad : Call := { args := [.cell (.str "!")], kw := [] }
+    let one : Call := { args := [.cell (.int 1)], kw := [] }
+    runMulti s body (fun _ => false) {} [.wrap .tryValue (tv (.cell (.int 0))) 0, .wrap .pd2np [] 1, .wrap .kwargsSupport [] 2,
+        .call 3 bad, .wrap .tryValue (tv (.cell .none)) 3, .call 3 bad, .call 4 bad]
+      = some [(.ok (.cell (.int 0)), 1), (.ok (.cell (.int 0)), 2), (.ok (.cell .none), 3)] ∧
+    runMulti s body (fun _ => false) {} [.wrap .cache [] 0, .wrap .kwargsSupport [] 1, .wrap .tryValue (tv (.cell .none)) 2,
+        .call 3 one, .call 3 one, .wrap .cache [] 3, .call 3 one, .call 3 one, .call 4 one]
+      = some [(.ok (.dict [("a", .cell (.int 1))]), 1), (.ok (.dict [("a", .cell (.int 1))]), 1),
+              (.ok (.dict [("a", .cell (.int 1))]), 1), (.ok (.dict [("a", .cell (.int 1))]), 1), (.ok (.dict [("a", .cell (.int 1))]), 1)] := by
+  decide +kernel
+
+/-! ## the domain of the stack model: "loops on non-container input" (review t5)
+
+`evalChain` / `evalH` forward ONE call through a `loops` layer.  The code does that exactly when the argument the layer dispatches
+on is not a list / tuple / dict of one of its `types`; otherwise it makes one call per element (C19) and the theorems above say
+nothing about the code.  `inDomain` (Wrap.lean) is that side condition; the driver declines lines outside it and the harness
+checks the driver's verdict against an independently written python predicate on generated container arguments. -/
+
+/-- a layer of another class in front: the decomposition of the stack goes through it -/
+theorem exists_loops_cons (s : Sig) (w : Cls × PDict) (hw : w.1 ≠ Cls.loops) (rest : List (Cls × PDict)) (c c' : Call)
+    (hr : ∀ above, reach s (w :: above) c = reach s above c') :
+    (∃ above p below, w :: rest = above ++ (Cls.loops, p) :: below ∧ loopsPasses s p (reach s above c) = false) ↔
+    (∃ above p below, rest = above ++ (Cls.loops, p) :: below ∧ loopsPasses s p (reach s above c') = false) := by
+  constructor
+  · rintro ⟨above, p, below, he, hp⟩
+    rcases List.cons_eq_append_iff.mp he with ⟨h1, h2⟩ | ⟨above', h1, h2⟩
+    · simp only [List.cons.injEq] at h2
+      exact absurd (by rw [← h2.1]) hw
+    · subst h1
+      exact ⟨above', p, below, h2, by rw [← hr]; exact hp⟩
+  · rintro ⟨above, p, below, he, hp⟩
+    exact ⟨w :: above, p, below, by rw [he]; rfl, by rw [hr]; exact hp⟩
+
+/-- **the domain, through `reach`**: a call is outside the domain of the stack model iff SOME `loops` layer of the stack receives -
+as the layers above it forward the call - a list / tuple / dict of one of its own looped types as the argument it dispatches on -/
+theorem inDomain_false_iff (s : Sig) : ∀ (chain : List (Cls × PDict)) (c : Call),
+    inDomain s chain c = false ↔
+      ∃ above p below, chain = above ++ (Cls.loops, p) :: below ∧ loopsPasses s p (reach s above c) = false
+  | [], c => by simp [inDomain]
+  | (.tryValue, q) :: rest, c => by
+      rw [exists_loops_cons s _ (by simp) rest c c (fun _ => rfl), ← inDomain_false_iff s rest c]; simp [inDomain]
+  | (.tryBack, q) :: rest, c => by
+      rw [exists_loops_cons s _ (by simp) rest c c (fun _ => rfl), ← inDomain_false_iff s rest c]; simp [inDomain]
+  | (.cache, q) :: rest, c => by
+      rw [exists_loops_cons s _ (by simp) rest c c (fun _ => rfl), ← inDomain_false_iff s rest c]; simp [inDomain]
+  | (.kwargsSupport, q) :: rest, c => by
+      rw [exists_loops_cons s _ (by simp) rest c (kwFilter s c) (fun _ => rfl), ← inDomain_false_iff s rest _]; simp [inDomain]
+  | (.pd2np, q) :: rest, c => by
+      rw [exists_loops_cons s _ (by simp) rest c (pd2npCall (excOf q) c) (fun _ => rfl), ← inDomain_false_iff s rest _]; simp [inDomain]
+  | (.loops, q) :: rest, c => by
+      have ih := inDomain_false_iff s rest (loopsCall s c)
+      simp only [inDomain, Bool.and_eq_false_iff]
+      constructor
+      · rintro (h | h)
+        · exact ⟨[], q, rest, rfl, h⟩
+        · obtain ⟨above, p, below, he, hp⟩ := ih.mp h
+          exact ⟨(Cls.loops, q) :: above, p, below, by rw [he]; rfl, hp⟩
+      · rintro ⟨above, p, below, he, hp⟩
+        rcases List.cons_eq_append_iff.mp he with ⟨h1, h2⟩ | ⟨above', h1, h2⟩
+        · subst h1
+          simp only [List.cons.injEq, Prod.mk.injEq, true_and] at h2
+          left; rw [← h2.1]; exact hp
+        · subst h1
+          right; exact ih.mpr ⟨above', p, below, h2, hp⟩
+
+/-- scalars are always inside: a call whose arguments are all cells is in the domain of every stack (the calls of every
+generated `stack` / `stackhist` line but the container-first-argument ones) -/
+theorem loopsPasses_of_cell (s : Sig) (p : PDict) (c : Call) (h : ∀ a, loopsArg s c = some a → ∃ x, a = .cell x) :
+    loopsPasses s p c = true := by
+  unfold loopsPasses
+  cases ha : loopsArg s c with
+  | none => rfl
+  | some a => obtain ⟨x, hx⟩ := h a ha; subst hx; rfl
+
+/-- the reviewer's witness: `loops(types=[list])(f)([1, 2])` is outside (the code returns `[f(1), f(2)]`, not `f([1, 2])`), the same
+call on a stack whose `loops` has `types=[tuple]` is inside, and so is a scalar call -/
+example :
+    let s : Sig := { params := ["a"], defaults := [], varargs := none, varkw := none }
+    let l12 : Call := { args := [.list [.cell (.int 1), .cell (.int 2)]], kw := [] }
+    inDomain s [(.tryBack, []), (.loops, [("types", .list [.cell (.str "list")])])] l12 = false ∧
+    inDomain s [(.tryBack, []), (.loops, [("types", .list [.cell (.str "tuple")])])] l12 = true ∧
+    inDomain s [(.loops, [("types", .list [.cell (.str "list")])])] { args := [], kw := [("a", .cell (.int 1))] } = true := by
+  decide +kernel
+
 end Pyg.Props.C18
